@@ -5,13 +5,13 @@
                      `T | None` therefore is an optional; an iterator type denotes the list of the items it yields);
   * `pyBinTy`, `pyMethodTy`, `pyFuncTy`   CPython's result types (reference typing of operators and of the stub
                      methods/functions that have a pure counterpart in `Tranp.Model.PyEval`);
-  * `wt strict Γ e`  the subset of the expression core on which the theorems are stated.
-        `wt false` ("Core"): what the property's sentence covers — Python-typable operator applications accepted by the stub
-        table, boolean operands of and/or, non-empty homogeneous list/dict literals, subscripts of list/dict/str/tuple
-        (tuple: literal index in range), slices, whitelisted pure stub calls whose inferred result equals CPython's,
-        comprehensions over list/dict/iterator sources.
-        `wt true` ("agreement subset") additionally excludes the three places where the code disagrees with CPython:
-        unary operators on `bool`, `bool &,| int`, slices of tuples.
+  * `wt Γ e` (`Core Γ e`)  the subset of the expression core on which the theorems are stated — what the property's sentence
+        covers: Python-typable operator applications accepted by the stub table with CPython's result type, unary operators on
+        int/float/bool, boolean operands of and/or, non-empty list/dict literals whose element types survive `on_list`'s
+        per-class selection (homogeneous literals; one type per class), subscripts of list/dict/str/tuple (tuple: literal index
+        in range), slices of list/str and — with literal or omitted bounds — of tuples, whitelisted pure stub calls whose inferred
+        result equals CPython's, comprehensions over list/dict/iterator sources.
+        Since the repairs 9370d50, 4f4a122, c5f6dc1 there is no separate "agreement subset": `WellTyped = Core`.
 -/
 import Tranp.Model.PyEval
 
@@ -215,22 +215,14 @@ def tyOk (r : Except Err Ty) (p : Ty → Bool) : Bool :=
   | .ok t => p t
   | .error _ => false
 
-def factorOk (strict : Bool) (op : UOp) (t : Ty) : Bool :=
-  if strict then (t = .int || (t = .float && op ≠ .inv))
-  else (pyFactorTy op t).isSome
+def factorOk (op : UOp) (t : Ty) : Bool := (pyFactorTy op t).isSome
 
-/-- the operator applications on which the stub-derived result is known to differ from CPython's (`C03.step_agreement`
-    shows there are no others among scalar operands): `bool & int`, `bool | int` are typed `bool`, CPython computes an `int` -/
-def boolBitInt (l : Ty) (op : BOp) (r : Ty) : Bool :=
-  l = .bool && r = .int && (op = .band || op = .bor)
-
-/-- every step of `each_binary_operator` is accepted by the stub table with CPython's result type
-    (Core: or is one of the `boolBitInt` applications) -/
-def stepsOk (strict : Bool) : Ty → List (BOp × Ty) → Bool
+/-- every step of `each_binary_operator` is accepted by the stub table with CPython's result type -/
+def stepsOk : Ty → List (BOp × Ty) → Bool
   | _, [] => true
   | l, (op, r) :: rest =>
     match tryStep l op r with
-    | some t => (pyBinTy op l r = some t || (!strict && boolBitInt l op r)) && stepsOk strict t rest
+    | some t => decide (pyBinTy op l r = some t) && stepsOk t rest
     | none => false
 
 def indexShapeOk (u : Ty) (k : Expr) : Bool :=
@@ -241,13 +233,13 @@ def indexShapeOk (u : Ty) (k : Expr) : Bool :=
 
 def indexOk (t : Ty) (k : Expr) : Bool := indexShapeOk (stripNullable t) k
 
-def sliceShapeOk (strict : Bool) (u : Ty) : Bool :=
+def sliceShapeOk (u : Ty) (lo hi : Expr) : Bool :=
   match u with
   | .list _ | .str => true
-  | .tuple _ => !strict
+  | .tuple _ => (literalBound lo).isSome && (literalBound hi).isSome
   | _ => false
 
-def sliceOk (strict : Bool) (t : Ty) : Bool := sliceShapeOk strict (stripNullable t)
+def sliceOk (t : Ty) (lo hi : Expr) : Bool := sliceShapeOk (stripNullable t) lo hi
 
 def callOk (tr : Ty) (m : Str) (ts : List Ty) : Bool :=
   stripNullable tr = tr &&
@@ -284,74 +276,75 @@ def compEnv (vars : List Str) (tsrc : Ty) : Option Env :=
   | .error _ => none
 
 mutual
-def wt (strict : Bool) (Γ : Env) : Expr → Bool
-  | .int _ | .float _ | .str _ | .true_ | .false_ | .none_ => true
+def wt (Γ : Env) : Expr → Bool
+  | .int _ | .float _ | .str _ | .true_ | .false_ | .none_ | .empty_ => true
   | .var x => (match lookup x Γ with | some t => t ≠ noSuchAttr | none => false)
-  | .factor op e => wt strict Γ e && tyOk (inferT Γ e) (factorOk strict op)
-  | .not_ e => wt strict Γ e
+  | .factor op e => wt Γ e && tyOk (inferT Γ e) (factorOk op)
+  | .not_ e => wt Γ e
   | .bin e rest =>
-    wt strict Γ e && wtChain strict Γ rest &&
+    wt Γ e && wtChain Γ rest &&
     (match inferT Γ e, inferChainT Γ rest with
-     | .ok l, .ok ops => stepsOk strict l ops
+     | .ok l, .ok ops => stepsOk l ops
      | _, _ => false)
-  | .cmp e rest => wt strict Γ e && wtChain strict Γ rest
-  | .and_ es => wtList strict Γ es && (match inferListT Γ es with | .ok ts => ts.all (· = .bool) | .error _ => false)
-  | .or_ es => wtList strict Γ es && (match inferListT Γ es with | .ok ts => ts.all (· = .bool) | .error _ => false)
-  | .tern a c b => wt strict Γ a && wt strict Γ c && wt strict Γ b
+  | .cmp e rest => wt Γ e && wtChain Γ rest
+  | .and_ es => wtList Γ es && (match inferListT Γ es with | .ok ts => ts.all (· = .bool) | .error _ => false)
+  | .or_ es => wtList Γ es && (match inferListT Γ es with | .ok ts => ts.all (· = .bool) | .error _ => false)
+  | .tern a c b => wt Γ a && wt Γ c && wt Γ b
   | .list es =>
-    wtList strict Γ es &&
+    wtList Γ es &&
     (match inferListT Γ es with
      | .ok (t :: ts) => ts.all (· = t) && t.className ≠ s_Unknown
      | _ => false)
   | .dict kvs =>
-    wtPairs strict Γ kvs &&
+    wtPairs Γ kvs &&
     (match inferPairsT Γ kvs with
      | .ok (kv :: rest) => rest.all (· = kv) && kv.2.className ≠ s_Unknown
      | _ => false)
-  | .tuple es => wtList strict Γ es
-  | .index r k => wt strict Γ r && wt strict Γ k && tyOk (inferT Γ r) (fun t => indexOk t k)
-  | .slice r lo hi => wt strict Γ r && wt strict Γ lo && wt strict Γ hi && tyOk (inferT Γ r) (sliceOk strict)
-  | .group e => wt strict Γ e
+  | .tuple es => wtList Γ es
+  | .index r k => wt Γ r && wt Γ k && tyOk (inferT Γ r) (fun t => indexOk t k)
+  | .slice r lo hi => wt Γ r && wt Γ lo && wt Γ hi && tyOk (inferT Γ r) (fun t => sliceOk t lo hi)
+  | .group e => wt Γ e
   | .call r m args =>
-    wt strict Γ r && wtList strict Γ args &&
+    wt Γ r && wtList Γ args &&
     (match inferT Γ r, inferListT Γ args with
      | .ok tr, .ok ts => callOk tr m ts
      | _, _ => false)
   | .fcall f args =>
-    (lookup f Γ).isNone && wtList strict Γ args &&
+    (lookup f Γ).isNone && wtList Γ args &&
     (match inferListT Γ args with
      | .ok ts => fcallOk f ts
      | .error _ => false)
   | .listComp proj vars src cond =>
-    wt strict Γ src &&
+    wt Γ src &&
     (match inferT Γ src with
      | .ok tsrc =>
        (match compEnv vars tsrc with
-        | some bs => wt strict (bs ++ Γ) proj && wt strict (bs ++ Γ) cond
+        | some bs => wt (bs ++ Γ) proj && wt (bs ++ Γ) cond
         | none => false)
      | .error _ => false)
   | .dictComp k v vars src cond =>
-    wt strict Γ src &&
+    wt Γ src &&
     (match inferT Γ src with
      | .ok tsrc =>
        (match compEnv vars tsrc with
-        | some bs => wt strict (bs ++ Γ) k && wt strict (bs ++ Γ) v && wt strict (bs ++ Γ) cond
+        | some bs => wt (bs ++ Γ) k && wt (bs ++ Γ) v && wt (bs ++ Γ) cond
         | none => false)
      | .error _ => false)
-def wtList (strict : Bool) (Γ : Env) : Exprs → Bool
+def wtList (Γ : Env) : Exprs → Bool
   | .nil => true
-  | .cons e es => wt strict Γ e && wtList strict Γ es
-def wtChain (strict : Bool) (Γ : Env) : Chain → Bool
+  | .cons e es => wt Γ e && wtList Γ es
+def wtChain (Γ : Env) : Chain → Bool
   | .nil => true
-  | .cons _ e rest => wt strict Γ e && wtChain strict Γ rest
-def wtPairs (strict : Bool) (Γ : Env) : Pairs → Bool
+  | .cons _ e rest => wt Γ e && wtChain Γ rest
+def wtPairs (Γ : Env) : Pairs → Bool
   | .nil => true
-  | .cons k v rest => wt strict Γ k && wt strict Γ v && wtPairs strict Γ rest
+  | .cons k v rest => wt Γ k && wt Γ v && wtPairs Γ rest
 end
 
-/-- the property's subset ("Core") and the agreement subset -/
-abbrev Core (Γ : Env) (e : Expr) : Prop := wt false Γ e = true
-abbrev WellTyped (Γ : Env) (e : Expr) : Prop := wt true Γ e = true
+/-- the property's subset -/
+abbrev Core (Γ : Env) (e : Expr) : Prop := wt Γ e = true
+/-- (historical name of the agreement subset; it coincides with `Core` since the repairs) -/
+abbrev WellTyped (Γ : Env) (e : Expr) : Prop := Core Γ e
 
 /-- a value whose run-time type is determined: no empty container, no mixed container inside -/
 def DetV (v : Val) : Prop := (typeOf v).plain = true
